@@ -532,6 +532,42 @@ Outcome Interp::exec(const Op &op) {
             case 17: {  // a table without values whose shape is {0, v}
                 ezc3d::ParametersNS::GroupNS::Parameter p("NOVALUES"); p.set(std::vector<int>(), {0, static_cast<size_t>(v)});
                 obj->parameter("LIMITS", p); out.note = "shape0x" + std::to_string(v); break; }
+            case 18: {  // fill the parameter section to EXACTLY 255 blocks minus one byte plus r (r = op.arg(1), signed): at r = 0 the terminating
+                        // byte is the last byte of block 255, at r = 1 the records fill 255 blocks and the terminator needs a 256th
+                auto sectionBytes = [&]() {
+                    Snap sn = takeSnap(*obj); size_t bytes = 4;
+                    for (auto &g2 : sn.groups) {
+                        if (g2.name.empty() && g2.params.empty()) continue;
+                        bytes += 2 + g2.name.size() + 2 + 1 + g2.desc.size();
+                        for (auto &p2 : g2.params) { size_t data = p2.type == -1 ? 1 : static_cast<size_t>(p2.type); for (auto d2 : p2.dims) data *= d2; if (p2.dims.empty()) data = 0;
+                            bytes += 2 + p2.name.size() + 2 + 2 + p2.dims.size() + data + 1 + p2.desc.size(); }
+                    }
+                    return bytes; };
+                const long long target = 255LL * 512 - 1 + op.arg(1);
+                { ezc3d::ParametersNS::GroupNS::Parameter p0("B0", std::string(200, 'b')); p0.set(std::vector<int>(140, 0)); obj->parameter("BLOCKS", p0); }
+                long long cur = static_cast<long long>(sectionBytes()); int idx = 1;
+                while (target - cur > 1100) {     // records of 2+name+2+2+1+280+1+200 bytes
+                    ezc3d::ParametersNS::GroupNS::Parameter p2("B" + std::to_string(idx), std::string(200, 'b')); p2.set(std::vector<int>(140, idx)); obj->parameter("BLOCKS", p2);
+                    cur += 2 + static_cast<long long>(("B" + std::to_string(idx)).size()) + 2 + 2 + 1 + 280 + 1 + 200; ++idx;
+                }
+                // the estimate is a few bytes generous: measure the real end of the last record in a file written now, then close the gap exactly
+                {
+                    const std::string mp = path("measure_section.c3d");
+                    obj->write(mp);
+                    std::vector<uint8_t> mb; readBytes(mp, mb);
+                    ref::Decoded md = ref::decode(mb);
+                    if (!md.ok && md.lastRecordEnd == 0) { out.skipped = true; out.note = "cannot measure the parameter section"; return out; }
+                    cur = static_cast<long long>(md.lastRecordEnd) - static_cast<long long>(md.paramSectionOffset);
+                }
+                for (int part = 0; part < 4 && target - cur >= 13; ++part) {    // closing records: 2+5+2+2+1+2n+1+d = 13 + 2n + d bytes each
+                    long long R = target - cur; const bool last = R <= 13 + 510 + 1;
+                    long long take = last ? R : 13 + 400;
+                    long long d = (take - 13) % 2, n = (take - 13 - d) / 2; if (n < 0) { n = 0; d = 0; }
+                    ezc3d::ParametersNS::GroupNS::Parameter pf("FILL" + std::to_string(part), std::string(static_cast<size_t>(d), 'f')); pf.set(std::vector<int>(static_cast<size_t>(n), 9));
+                    obj->parameter("BLOCKS", pf);
+                    cur += 13 + 2 * n + d;
+                }
+                out.note = "section=255blocks" + std::string(op.arg(1) >= 0 ? "+" : "") + std::to_string(op.arg(1) - 1) + (cur == target ? "" : "|missed-by-" + std::to_string(target - cur)); break; }
             case 11: obj->parameter("LIMITS2", mk("G", "")); { /* group description cannot be set through c3d: covered via Group in a loaded file */ } out.note = "noop"; break;
             default: out.skipped = true; out.mutating = false; break;
             }
@@ -642,6 +678,18 @@ Outcome Interp::exec(const Op &op) {
                     bool shapeOk = fr.points().nbPoints() == s2.nP && fr.analogs().nbSubframes() == (s2.nC ? s2.nSub : 0);
                     for (size_t q2 = 0; shapeOk && q2 < fr.analogs().nbSubframes(); ++q2) if (fr.analogs().subframe(q2).nbChannels() != s2.nC) shapeOk = false;
                     if (slotDev[slot].find("mut:") == std::string::npos || !shapeOk) out.undocumented = true;
+                    if (out.undocumented && continueAfterConsistentDeviation && slotDev[slot] != "dup" && fr.points().nbPoints() == s2.nP && (fr.analogs().nbSubframes() == 0 || fr.analogs().subframe(0).nbChannels() == s2.nC)) {
+                        // every filled stored frame carries the shape of the frame just stored (judged on the DATA, not on what the header says):
+                        // the data set is uniform again and the history may go on
+                        bool uniform = true;
+                        for (size_t q3 = 0; q3 < fr.analogs().nbSubframes(); ++q3) if (fr.analogs().subframe(q3).nbChannels() != fr.analogs().subframe(0).nbChannels()) uniform = false;
+                        for (size_t f2 = 0; f2 < obj->data().nbFrames() && uniform; ++f2) {
+                            const auto &sf = obj->data().frame(f2);
+                            if (sf.points().nbPoints() == 0 && sf.analogs().nbSubframes() == 0) continue;
+                            if (sf.points().nbPoints() != fr.points().nbPoints() || sf.analogs().nbSubframes() != fr.analogs().nbSubframes()) uniform = false;
+                        }
+                        if (uniform) { out.undocumented = false; out.note += "|state-consistent"; }
+                    }
                 }
             }
         }
